@@ -211,6 +211,7 @@ func (vc *VC) generateOnce() {
 			ob := &Oblig{Name: vc.rootKey + "/post:" + cl.Label, Kind: "post", Label: cl.Label, Func: vc.rootKey, InFunc: vc.rootKey, Detail: cl.Src}
 			vc.sc.Oblig(out.reach, g, ob)
 		}
+		vc.reportEnvErrors(penv)
 		if vc.opts.Cover {
 			// vacuity guard: the antecedent of every conditional postcondition is reachable at a return
 			for _, cl := range ct.Ensures {
